@@ -342,7 +342,44 @@ pub fn run(ctx: &mut Ctx) {
         ctx.trace(|| format!("cfg {i}: {} {:?} batch={batch}", p.describe(), cfg));
         let mut rng2 = Rng64::derive(ctx.seed, &["c01-case"], i * 977 + ctx.shard as u64);
         let mut v = V01 { rng: &mut rng2, batch };
-        if let Err(e) = with_prio3(ctx, &p, &cfg, &mut v) {
+        // every sixth chunked instance is the multithreaded instantiation (Prio3*Multithreaded)
+        let mt = kind.has_joint_rand() && i % 6 == 4;
+        if mt {
+            ctx.count("configs_multithreaded_gadget");
+        }
+        if let Err(e) = with_prio3_ex(ctx, &p, &cfg, &mut v, mt) {
+            ctx.violation(format!("{}|constructor-refused", kind.name()), "admissible parameters refused by the constructor",
+                json!({"config": p.describe(), "cfg": format!("{cfg:?}"), "err": e}));
+        }
+    }
+    // A few long inputs per shard (thousands of elements; several 4 KiB encoding blocks; chunk
+    // lengths around multiples of 8/32), serial and multithreaded.
+    let n_long = (ctx.budget(64, 640) / ctx.nshards as u64).max(2);
+    let mut rng = ctx.rng("c01-long");
+    for i in 0..n_long {
+        let kind = [Kind::SumVec, Kind::Histogram, Kind::Multihot, Kind::L1BoundSum][(i as usize + ctx.shard) % 4];
+        let fp = if rng.bool() { P64 } else { P128 };
+        let n = 700 + rng.usize_below(6_000);
+        let chunk = match rng.below(5) {
+            0 => 100,
+            1 => 33 + rng.usize_below(31),
+            2 => prio::vdaf::prio3::optimal_chunk_length(n),
+            3 => prio::vdaf::prio3::optimal_chunk_length(n) + 1 + rng.usize_below(7),
+            _ => 20 + rng.usize_below(300),
+        };
+        let p = match kind {
+            Kind::SumVec => Params { kind, max: 1, len: n, chunk, p: fp },
+            Kind::Histogram => Params { kind, max: 1, len: n, chunk, p: fp },
+            Kind::Multihot => Params { kind, max: 1 + rng.below(9) as u128, len: n, chunk, p: fp },
+            _ => Params { kind, max: 3, len: n / 2, chunk, p: fp },
+        };
+        let cfg = VdafCfg { aggs: 2 + rng.below(3) as u8, proofs: 1 + rng.below(2) as u8, alg_id: algorithm_id(kind), hmac_xof: rng.chance(1, 6) };
+        let mt = rng.bool();
+        ctx.trace(|| format!("long cfg {i}: {} {:?} mt={mt}", p.describe(), cfg));
+        ctx.count(if mt { "long_configs_multithreaded_gadget" } else { "long_configs_serial_gadget" });
+        let mut rng2 = Rng64::derive(ctx.seed, &["c01-long-case"], i * 977 + ctx.shard as u64);
+        let mut v = V01 { rng: &mut rng2, batch: 2 };
+        if let Err(e) = with_prio3_ex(ctx, &p, &cfg, &mut v, mt) {
             ctx.violation(format!("{}|constructor-refused", kind.name()), "admissible parameters refused by the constructor",
                 json!({"config": p.describe(), "cfg": format!("{cfg:?}"), "err": e}));
         }
